@@ -201,7 +201,7 @@ func (c *c10) RunCase(w *core.Worker, idx int, seed uint64, res *core.CaseResult
 	nt := false
 	stop := func() bool {
 		for _, f := range res.Findings {
-			if f.Key != "C10/xml-replace-operation-widens-the-change" && f.Key != "C10/xml/deleted-leaf-not-in-its-namespace" && f.Key != "C10/json-omits-presence-container-whose-children-are-all-removed" && f.Key != "C10/xml-presence-container-delete-drops-the-children-that-remain" {
+			if f.Key != "C10/xml-replace-operation-widens-the-change" && f.Key != "C10/xml/deleted-leaf-not-in-its-namespace" && f.Key != "C10/xml-presence-container-delete-drops-the-children-that-remain" {
 				return true
 			}
 		}
